@@ -61,10 +61,11 @@ def validate(ctx, events, name='MichSemTrace', timeout=900):
     cfg = 'SPECIFICATION Spec\nPOSTCONDITION Accepted\n'
     r = ctx.tlc('MichSemTrace', cfg, name=name, workers=1, env={'TRACE_FILE': tf}, timeout=timeout, coverage=False)
     rej = [(v[1], v[2], v[3]) for v in r.printed if v[0] == 'REJECT']
+    raw_rej = len(rej)
     # digests are symbolic in the model: interpret them (hashlib) and compare again
     byid = {e['id']: e for e in events}
     rej = [x for x in rej if not (x[1] == 'result' and x[2][0] == 'ok' and to_json(concretise_hashes(x[2][1])) == byid[x[0]]['after'])]
-    if r.violation and not rej:
+    if r.violation and not raw_rej:
         raise Exception('trace validation failed without a REJECT line:\n' + r.output[-1500:])
     return rej
 
